@@ -412,6 +412,12 @@ def pair_resume(H, cfgd, conns, table, pid, rng, spare="cx"):
         return [], H
     if L[len(prefix)][0]["k"] != "CrashInCmd":
         return [], H   # nothing durable happened inside the command: no crash point
+    if L[len(prefix) + 1][1] is None or L[len(prefix) + 1][1]["db"] != L[len(prefix)][1]["db"]:
+        # The sweep that runs at start-up expired something at this very instant.  In the uninterrupted
+        # run the command came first and may have refreshed that channel, so the two runs may
+        # legitimately differ (the channel was on the expiry boundary when the process died): such a
+        # history decides nothing about re-sending.  (What a start-up sweep may delete is C12 / C13.)
+        return [], H
     cL, cR = Canon(), Canon()
     for (e, o) in L[:len(prefix)]:
         if o is not None:
@@ -543,7 +549,7 @@ REGIME_CFG = {
                     cfgs=[dict(allow=True, usage=True, blur=0), dict(allow=True, usage=False, blur=0)]),
     "resend": dict(profile="crowd", over=dict(conns=("c1", "c2", "c3"), names=["1", "x"]),
                    cfgs=[dict(allow=True, usage=False, blur=0), dict(allow=True, usage=True, blur=0)]),
-    "config": dict(profile="nameplate", over=dict(w_advance=3, w_allocate=3), cfgs=[dict(allow=True, usage=False, blur=0)]),
+    "config": dict(profile="nameplate", over=dict(w_advance=3, w_allocate=3, badcv=0.12), cfgs=[dict(allow=True, usage=False, blur=0)]),
     "resume": dict(profile="mailbox", over=dict(w_stop=0, w_crash=0),
                    cfgs=[dict(allow=True, usage=False, blur=0, snapshots=True), dict(allow=True, usage=True, blur=0, snapshots=True)]),
 }
